@@ -77,3 +77,21 @@ Example pinned_record_writer_refuted :
   rr_write_imp_pinned c [x00] [x01] [x02] <> cwrite c ([x00] ++ [x01] ++ be_enc 2 1 ++ [x02]) /\
   rr_write_imp c [x00] [x01] [x02] = cwrite c ([x00] ++ [x01] ++ be_enc 2 1 ++ [x02]).
 Proof. split; [vm_compute; discriminate|vm_compute; reflexivity]. Qed.
+
+(* a fixed-capacity writer either behaves exactly like the growable one or fails: it never yields a truncated record *)
+Theorem rr_write_cap_refines : forall cap c nameb commonb rdatab,
+  rr_write_imp_cap cap c nameb commonb rdatab =
+  if cpos c + len nameb + len commonb + 2 + len rdatab <=? cap then Ok (rr_write_imp c nameb commonb rdatab) else Err FailedToWrite.
+Proof.
+  intros cap c nameb commonb rdatab. assert (L2 : len [x00; x00] = 2) by reflexivity.
+  unfold rr_write_imp_cap, rr_write_imp, cwrite_cap, cseek_o.
+  destruct (cpos c + len nameb <=? cap) eqn:E1; [|destruct (cpos c + len nameb + len commonb + 2 + len rdatab <=? cap) eqn:E; [lia|reflexivity]].
+  cbn [cwrite cpos cbuf]. destruct (cpos c + len nameb + len commonb <=? cap) eqn:E2;
+    [|destruct (cpos c + len nameb + len commonb + 2 + len rdatab <=? cap) eqn:E; [lia|reflexivity]].
+  cbn [cwrite cpos cbuf]. rewrite !L2.
+  destruct (cpos c + len nameb + len commonb + 2 <=? cap) eqn:E3;
+    [|destruct (cpos c + len nameb + len commonb + 2 + len rdatab <=? cap) eqn:E; [lia|reflexivity]].
+  cbn [cwrite cpos cbuf]. rewrite ?L2.
+  destruct (cpos c + len nameb + len commonb + 2 + len rdatab <=? cap) eqn:E4; [|reflexivity].
+  cbn [cwrite cseek cpos cbuf]. rewrite ?L2, len_be_enc. change (N.of_nat 2) with 2. rewrite E3. reflexivity.
+Qed.
